@@ -467,7 +467,40 @@ def drop_pair(toks, i):
 
 # ------------------------------------------------------------------------------------------------ layouts
 WS = [' ', ' ', ' ', '  ', '\t', '\n', '\r\n', ' \n ', ' ', ' ', '\u000b', '　']
-COMMENTS = ['/* c */', '/**/', '/* a * b / c */', '// note\n', '//\n', '/* multi\n line */', '/* "quoted" */', '// a + b and (c\n']
+COMMENT_WORDS = ['c', 'note', 'a + b and (c', '"quoted"', 'x * y', 'żółć ν 日本', '1..2]', "it's", 'if then else', '']
+BLOCK_BITS = ['*', '**', '***', '/', '//', '/*', '* /', '/ *', '*\n', '\n', '\r\n', ' ', '\t', '"', '/**', '*/*'.replace('*/', '* /'), '\\', '@', '-']
+LINE_BITS = ['/*', '*/', '//', '/', '*', '**/', '/**/', '"', ' ', '\t', '\r', '\\', '(', '-']
+
+
+def gen_block_comment(rng):
+    """/* ... */ with an adversarial body: runs of stars of length 0..6 right after the opening and right before the closing,
+    slashes, look-alikes of the terminator, openers of both comment kinds, line breaks, non-ASCII text; the body never contains `*/`."""
+    for _ in range(20):
+        k = rng.random()
+        if k < 0.25:
+            inner = '*' * rng.randint(0, 6)
+        else:
+            inner = '*' * rng.choice([0, 0, 1, 2, 3, 4, 5, 6])
+            for _ in range(rng.choice([0, 1, 1, 2, 3])):
+                inner += rng.choice([rng.choice(COMMENT_WORDS), rng.choice(BLOCK_BITS), ' '])
+            inner += '*' * rng.choice([0, 0, 1, 2, 3, 4, 5, 6])
+        if '*/' not in inner:
+            return '/*' + inner + '*/'
+    return '/**/'
+
+
+def gen_line_comment(rng, at_end):
+    body = ''
+    for _ in range(rng.choice([0, 1, 1, 2, 3])):
+        body += rng.choice([rng.choice(COMMENT_WORDS), rng.choice(LINE_BITS), ' '])
+    body = body.replace('\n', ' ')
+    if at_end:
+        return '//' + body + rng.choice(['', '\n', '\r\n', '\r', '\n\n'])
+    return '//' + body + rng.choice(['\n', '\n', '\r\n'])
+
+
+def gen_comment(rng, at_end=False):
+    return gen_block_comment(rng) if rng.random() < 0.6 else gen_line_comment(rng, at_end)
 
 
 def wordy_end(s):
@@ -480,8 +513,9 @@ def wordy_start(s):
     return c.isalnum() or c == '_' or ord(c) > 127 or c == '?' or c == '.'
 
 
-def gap(rng, style, must_ws, ws_only):
-    """Layout between two tokens. must_ws: has to begin with white space; ws_only: no comments."""
+def gap(rng, style, must_ws, ws_only, at_end=False):
+    """Layout between two tokens. must_ws: has to begin with white space; ws_only: no comments; at_end: nothing follows (a line comment may end
+    without a line break)."""
     if style == 'tight':
         return ' ' if must_ws else ''
     if style == 'plain':
@@ -497,10 +531,12 @@ def gap(rng, style, must_ws, ws_only):
         s = ''.join(rng.choice(WS) for _ in range(rng.choice([0, 1, 2])))
         return s if (s or not must_ws) else ' '
     parts = []
-    for _ in range(n):
-        parts.append(rng.choice(WS) if (must_ws or rng.random() < 0.7 or parts) else '')
-        parts.append(rng.choice(COMMENTS))
-    parts.append(rng.choice(WS) if rng.random() < 0.7 else '')
+    for i in range(n):
+        parts.append(rng.choice(WS) if (must_ws or rng.random() < 0.5 or (parts and rng.random() < 0.5)) else '')
+        last = at_end and i == n - 1
+        parts.append(gen_comment(rng, last and rng.random() < 0.7))
+    if not (at_end and parts[-1].startswith('//') and not parts[-1].endswith('\n')):
+        parts.append(rng.choice(WS) if rng.random() < 0.5 else '')
     return ''.join(parts)
 
 
@@ -514,7 +550,7 @@ def layout(toks, rng, style):
             out.append(gap(rng, style, must, pfl in ('nolayout', 'bind')))
         out.append(tx)
     lead = gap(rng, style, False, False) if style not in ('tight', 'plain') else ''
-    trail = gap(rng, style, False, False) if style not in ('tight', 'plain') else ''
+    trail = gap(rng, style, False, False, at_end=True) if style not in ('tight', 'plain') else ''
     return lead + ''.join(out) + trail
 
 
@@ -973,6 +1009,18 @@ def run(ctx):
         if got != a['cps']:
             model_failures += 1
             ctx.corr_broken('unescape', {'literal': a['text']}, a['cps'], got)
+    # layouts: the model of the layout scanner skips every generated gap entirely (the generator stays inside the modelled comment grammar,
+    # for which C06_layout_skipped is proved); the real lexer is exercised with the same generator through the parses below
+    gaps = []
+    for _ in range(ctx.pick(300, 5000)):
+        at_end = ctx.rng.random() < 0.3
+        g = gap(ctx.rng, ctx.rng.choice(['comments', 'comments2', 'ws']), False, False, at_end=at_end)
+        gaps.append((g, at_end))
+    lay = ctx.run_model(HEADER, ['skip_layout 12 [%s]' % '; '.join(str(ord(ch)) for ch in (g + ('' if e else '1'))) for g, e in gaps], shard_size=100, tag='lay')
+    for (g, e), r in zip(gaps, lay):
+        if r != ([] if e else [49]):
+            model_failures += 1
+            ctx.corr_broken('layout', {'gap': g}, 'generated as layout', r)
     reqs = [{'bind': BIND, 'e': c['text'], 'mode': c['mode']} for c in cases]
     impl = ctx.run_impl('ast', reqs)
     # the committed tables (driver model, no actions) decide acceptance of the token sequence of every kind of tree: binders, collections,
@@ -1034,9 +1082,9 @@ def run(ctx):
     return ctx.finish(
         rule='syntax trees of the whole expression language (depth <= 5, all 14x14 ordered operator pairs in both nestings, between / unary minus / '
              'postfix neighbours, binders, collections, ranges, unary tests) rendered minimally, fully parenthesised and with each needed pair removed, '
-             'layouts tight / single space / Unicode white space / comments / several comments in a row; literals in every spelling; '
+             'layouts tight / single space / Unicode white space / comments / several comments in a row, comment bodies adversarial (runs of 0..6 stars after the opening and before the closing, slashes, terminator look-alikes, comment openers, quotes, CR/LF/CRLF/no line end at the end of input, non-ASCII); literals in every spelling; '
              'non-trivial = distinct input texts of non-atomic trees',
-        extra_cov={'renderings': hist, 'model_rendered_fragment_trees': len(owners), 'model_decoded_string_literals': len(lits), 'tables_acceptance_checked': len(acc_cases), 'tables_acceptance_disagreements': acc_bad, 'model_failures': model_failures,
+        extra_cov={'renderings': hist, 'model_rendered_fragment_trees': len(owners), 'model_decoded_string_literals': len(lits), 'model_skipped_layouts': len(gaps), 'tables_acceptance_checked': len(acc_cases), 'tables_acceptance_disagreements': acc_bad, 'model_failures': model_failures,
                    'tables': 'Gen/LalrTables.v regenerated from feel-parser/src/lalr.rs on this run (2312 pairs + 78608 triples re-proved when it changes)'},
         assumptions=['names are single words bound in the parsing scope (multi-word names are C10)',
                      'lexical rules of the text level applied by the renderer: a keyword is followed by white space; `and`/`between` at the top level of a '
